@@ -30,6 +30,51 @@ def nontrivial(b):
     return len(cl) >= 2 or (len(cl) >= 1 and stranger)
 
 
+ZONED_PROPS = U.PROPS["C04"] + ["FwdAuthentic", "FwdComplete", "ReplyAuthentic", "ReplyComplete"]
+WINDOW_PROPS = U.PROPS["C04"] + ["FwdAuthentic", "FwdComplete"]
+
+
+def zoned(ctx):
+    """client addresses that differ only in the IPv6 zone, in front of the real Handle (in-package, fake client-side conn)"""
+    import os
+    d = ctx.sub("zoned")
+    tf = os.path.join(d, "trace-raw.ndjson")
+    rc, out = vlib.go_overlay_test(
+        ctx, "service", {"zz_verif_zoned_test.go": os.path.join(vlib.HARNESS, "overlay", "service", "zz_verif_zoned_test.go")},
+        "TestVerifZonedClients", env_extra={"VERIF_ZN_OUT": tf, "GOMEMLIMIT": "2GiB"}, timeout=300)
+    if vlib.compile_failed(out):
+        ctx.cov["skipped"].append("zoned-clients harness does not compile against this tree: " + out[-400:])
+        return
+    if "HARNESS-ERROR" in out or not os.path.exists(tf):
+        raise vlib.Inconclusive("zoned-clients harness failed (rc=%s): %s" % (rc, out[-2000:]))
+    rows = vlib.read_ndjson(tf)
+    ends = [r for r in rows if r.get("ev") == "EndZ"]
+    if len(ends) != 2:
+        raise vlib.Inconclusive("zoned-clients harness: %d of 2 variants completed: %s" % (len(ends), out[-2000:]))
+    clean = os.path.join(d, "trace.ndjson")
+    vlib.write_ndjson(clean, [r for r in rows if r.get("ev") != "EndZ"])
+    U.validate(ctx, clean, "UdpNatTraceReal.cfg", ZONED_PROPS, "zoned client addresses (fake client-side conn, real Handle)")
+    ctx.cov["evaluations"] += len(ends)
+    ctx.cov["distinct_nontrivial"] += len(ends)
+    ctx.cov["zoned_client_datagrams"] = sum(1 for r in rows if r.get("ev") == "CSend")
+    ctx.sample({"zoned_clients_trace_head": rows[:8]})
+
+
+def window(ctx):
+    """a client datagram during the teardown of its previous association (exact schedule through the recording metrics)"""
+    import json, os
+    d = ctx.sub("window")
+    tf, sf = os.path.join(d, "trace.ndjson"), os.path.join(d, "sum.json")
+    rc, out, err = U.run_capped([U.driver(ctx), "window", "-out", tf, "-summary", sf, "-seed", str(ctx.seed)], timeout=120)
+    if rc != 0:
+        raise vlib.Inconclusive("udpnat window failed rc=%s: %s" % (rc, err[-1500:]))
+    U.validate(ctx, tf, "UdpNatTraceReal.cfg", WINDOW_PROPS, "datagram during the teardown of the client's previous association")
+    sums = json.load(open(sf))
+    U.summary_violations(ctx, sums, None, "datagram during teardown", {"returned", "leak"})
+    ctx.cov["evaluations"] += len(sums)
+    ctx.cov["distinct_nontrivial"] += len(sums)
+
+
 def run(ctx):
     q = ctx.quick
     U.exhaustive(ctx, ["MC_UdpNatC03.cfg", "MC_UdpNatSync.cfg"] if q else ["MC_UdpNatC03T.cfg", "MC_UdpNatSync.cfg", "MC_UdpNatLong.cfg"], "C04")
@@ -48,6 +93,8 @@ def run(ctx):
         ctx.sample({"family": fam, "target_observations": [r for r in rows if r.get("ev") == "TRecv"][:4]})
         if fam == "def":
             ctx.cov["hostname_datagrams"] = sum(1 for r in rows if r.get("ev") == "CSend" and r["dst"] in (11, 12, 13))
+    zoned(ctx)
+    window(ctx)
     vlib.write_evidence(ctx, "model_checking",
                         "as C03; non-trivial = at least two clients have associations in the behaviour, or a stranger / other-port "
                         "socket sends to an association's source port",
